@@ -70,8 +70,9 @@ if res.get('confirmed', True):
     out_dir = os.path.join('/verif/seeded', name)
     os.makedirs(out_dir, exist_ok=True)
     for f in ('patch.diff', 'demo.diff', 'meta.json'):
-        shutil.copyfile(os.path.join(seed, f), os.path.join(out_dir, f))
-    open(os.path.join(out_dir, 'confirm.log'), 'w').write('\n'.join(log) + '\n')
+        if os.path.exists(os.path.join(seed, f)) and os.path.realpath(os.path.join(seed, f)) != os.path.realpath(os.path.join(out_dir, f)):
+            shutil.copyfile(os.path.join(seed, f), os.path.join(out_dir, f))
+    open(os.path.join(out_dir, 'detection.log' if '--no-confirm' in sys.argv else 'confirm.log'), 'w').write('\n'.join(log) + '\n')
     json.dump(res, open(os.path.join(out_dir, 'detection.json'), 'w'), indent=1)
 else:
     open(os.path.join(seed, 'confirm.log'), 'w').write('\n'.join(log) + '\n')
